@@ -17,8 +17,8 @@ CLAIMED = {
             "declined: the tolerance/conditioning statement and every numeric equality (solver accuracy)"),
     "C02": ("end-to-end dataflow of weights into sample_weight, regressor/scaler configuration, stacking-order agreement, check_fit_input return contract",
             "declined: optimality itself, weight-scale invariance, the zero-weight limit (scikit-learn's semantics)"),
-    "C04": ("package-wide flatten-order scan with positive control, ravel provenance of kernel arguments, output-shape plumbing, dtype provenance of every allocation, sibling agreement predict/jacobian",
-            "declined: permutation invariance, linearity in the data, pandas containers, round-off (relations between pairs of executions)"),
+    "C04": ("package-wide flatten-order scan with positive control, ravel provenance of kernel arguments, output-shape plumbing, dtype provenance of every allocation, sibling agreement predict/jacobian, check_fit_input return contract (every weight handed out as a bare C-raveled ndarray), generic conversion/layout rules RT/RV/RF/RB",
+            "declined: permutation invariance, linearity in the data, round-off (relations between pairs of executions); for pandas containers only the necessary condition 'inputs pass np.ravel / n_1d_arrays before they are indexed' is decided"),
     "C17": ("zone abstraction: exhaustive abstract interpretation of the modular longitude arithmetic over the finite partition of admissible (W, E) classes; dominance and exact disjunct coverage of the range checks; normal-form (or cell-by-cell) agreement of bound and longitude transforms",
             "declined: point-in-region equivalence enumerated over (W, E, longitude) classes; np.allclose read as exact equality; five seam classes are KNOWN FINDINGS (known_findings.json)"),
     # id: (technique, declined / extra note)
@@ -48,11 +48,11 @@ CLAIMED = {
             "declined: agreement with brute-force distances (SciPy's k-d tree)"),
     "C16": ("dataflow checks of the shared normalisation, hull-on-data/query-on-grid, the != -1 test, projection of both point sets, project_grid pipeline wiring",
             "declined: hull geometry, NaN/finite pattern, value preservation, range under antialiasing"),
-    "C18": ("role/axis typing of every (dimension name, coordinate array) pairing, mesh slicing direction, meshgrid operand order and reversal; name-count rejection; flatten order",
+    "C18": ("role/axis typing of every (dimension name, coordinate array) pairing, mesh slicing direction, meshgrid operand order and reversal; name-count rejection; flatten order; run-by-run comparison of name and column sequences (sorted against declaration order, reversed runs)",
             "declined: nothing structural; values are moved by numpy/xarray/pandas"),
-    "C19": ("open/close pairing over all paths incl. the exceptional one, readline() call-instance ordinals for header order, role typing of shape/region, dominance of the integrity check",
+    "C19": ("open/close pairing over all paths incl. the exceptional one, readline() call-instance ordinals for header order, role typing of shape/region, dominance of the integrity check, tokenisation of the header records (white-space split; a regular-expression tokeniser is folded against witness spellings)",
             "declined: numpy's parsing of whitespace/number formats, allclose tolerance, wrapped-row layouts (value-level)"),
-    "C20": ("alias/effect analysis with call-graph summaries; typestate (event order) of fit/predict; constructor-contract and who-may-call checks",
+    "C20": ("alias/effect analysis with call-graph summaries; typestate (event order) of fit/predict; constructor-contract and who-may-call checks; module-level state scan (incl. objects reached from module-level containers); clone-per-split of the caller's estimator",
             "declined: bit-identical repetition, behaviour after clone (follow from the checked clauses plus deterministic libraries)"),
 }
 PENDING_REASON = "check not built yet (framework under construction; see DESIGN.md section 7 build order)"
@@ -90,9 +90,9 @@ def main():
         "notes": "Static-analysis family only. Exit 0 = all obligations discharged; 1 = VIOLATION (positively established contradiction); "
                  "2 = ANALYSIS-UNDECIDED/ANALYSIS-ERROR (unmodelled construct, vanished anchor) - never a silent pass. Genuine defects found "
                  "on the pinned tree were repaired by fix: commits in /repo or are listed in known_findings.json. Self-validation (thorough tier, "
-                 "tools/): 560 corpus variants, 31 whole-package behaviour-preserving rewrite sweeps, 180 independently written breaking changes "
-                 "(seeded/: 142 reported as VIOLATION, 38 recorded undecided, none silent) and 60 independently written behaviour-preserving "
-                 "rewrites (neutral/: none reported) - DESIGN.md 8.9-8.12.",
+                 "tools/): 570 corpus variants, 32 whole-package behaviour-preserving rewrite sweeps, 235 independently written breaking changes "
+                 "(seeded/: 186 reported as VIOLATION, 49 recorded undecided with the reason, none silent) and 120 independently written "
+                 "behaviour-preserving rewrites (neutral/: none reported) - DESIGN.md 8.9-8.13.",
         "not_applicable": na,
     }
     (VERIF / "MANIFEST.json").write_text(json.dumps(m, indent=1))
